@@ -1,6 +1,6 @@
 //go:build verif
 
-//verif:bounds terminal step lemma: geometry (width, height, scrollback, tab width) from {1,2,3}x{1,2}x{0,1}x{0,2} (quick) or {1..4}x{1..3}x{0..2}x{0,1,3} (thorough); every cell of the terminal buffer (character, colours) arbitrary; cursor, viewport position and active/inactive state arbitrary (case split); one operation: WriteByte of an arbitrary byte, Write of two arbitrary bytes, SetCursorPosition with arbitrary 32-bit coordinates, SetState
+//verif:bounds terminal step lemma: geometry (width, height, scrollback, tab width) from {1,2,3}x{1,2}x{0,1}x{0,2,129} (quick) or {1..4}x{1..3}x{0..2}x{0,1,3,128,255} (thorough); every cell of the terminal buffer (character, colours) arbitrary; cursor, viewport position and active/inactive state arbitrary (case split); one operation: WriteByte of an arbitrary byte, Write of two arbitrary bytes, SetCursorPosition with arbitrary 32-bit coordinates, SetState; AttachTo from an arbitrary previous attachment (C17) and on an active or inactive terminal over a console with arbitrary contents (C18)
 //verif:assumes Inv(VT): 1 <= cursorX <= width, 1 <= cursorY <= height, viewportY <= scrollback, dataOffset consistent with cursor and viewport, rows below the viewport still blank, current colours = default colours (the VT has no colour API); for C18 additionally Sync: an active terminal's console shows exactly the viewport
 package tty
 
